@@ -30,6 +30,7 @@ type callRec struct {
 	fn   *a.Func
 	args []string // C argument expressions, in parameter order
 	line string   // what the interpreter observed: "<name> <value>" or "<name> -"
+	c    string   // C statements that print the corresponding line (empty: a plain call of fn)
 }
 
 func cType(in *interp, typ *a.TypeExpr) string {
@@ -114,6 +115,12 @@ func runC04(tp *sim.Tape, opt sim.RunOpt) *sim.Outcome {
 	case "generated":
 		src = generate(tp)
 		name, mech = "generated", lastGenMech
+	case "slice":
+		src = generateSliceProgram(tp)
+		name, mech = "generated-slice", lastGenMech
+	case "coro":
+		src = generateCoroProgram(tp)
+		name, mech = "generated-coro", lastGenMech
 	default:
 		src = generateExprProgram(tp)
 		name, mech = "generated-expr", lastGenMech
@@ -144,6 +151,49 @@ func runC04(tp *sim.Tape, opt sim.RunOpt) *sim.Outcome {
 	in := &interp{tm: p.tm, funcs: p.funcs, strct: p.strct, this: map[t.ID]*val{}, maxStep: 200000}
 	var recs []callRec
 	var giveUp string
+	var coroCalls []string
+	var stream []byte
+	dstCap := 1
+	if opt.Mode == "coro" {
+		// The simulated caller of coro.go runs the history and records its
+		// actions; the C driver repeats them.
+		res := driveHistory(p, tp, nil)
+		in = res.interp
+		coroCalls, stream, dstCap = res.calls, res.stream, res.dstCap
+		o.ProbeN("suspensions", int64(res.suspensions))
+		if res.suspensions > 0 {
+			o.Probe("runs_with_a_suspension")
+		}
+		switch {
+		case res.viol != nil:
+			giveUp = "c01_class_violation: " + res.viol.class
+		case res.unsupported != "":
+			giveUp = "unsupported: " + firstWords(res.unsupported, 3)
+		}
+		off := 0
+		for _, st := range res.steps2 {
+			switch st.kind {
+			case "plain":
+				recs = append(recs, callRec{fn: st.fn, args: st.cargs, line: st.expect})
+			case "drain":
+				recs = append(recs, callRec{line: st.expect,
+					c: "  printf(\"dst \"); for (size_t i = 0; i < dst.meta.wi; i++) { printf(\"%02x\", dstdata[i]); } printf(\"\\n\"); dst.meta.pos += dst.meta.wi; dst.meta.wi = 0;\n"})
+			case "enter":
+				var cb strings.Builder
+				if n := len(st.appendSrc); n > 0 {
+					fmt.Fprintf(&cb, "  memcpy(srcdata + src.meta.wi, stream + %d, %d); src.meta.wi += %d;\n", off, n, n)
+					off += n
+				}
+				if st.closeSrc {
+					cb.WriteString("  src.meta.closed = true;\n")
+				}
+				fname := st.fn.FuncName().Str(p.tm)
+				fmt.Fprintf(&cb, "  st = wuffs_zfoo__foo__%s(%s);\n", fname, strings.Join(append([]string{"f"}, st.cargs...), ", "))
+				fmt.Fprintf(&cb, "  printf(\"%s? %%s ri=%%zu wi=%%zu\\n\", st.repr ? st.repr : \"ok\", src.meta.ri, dst.meta.wi);\n", fname)
+				recs = append(recs, callRec{fn: st.fn, args: st.cargs, line: st.expect, c: cb.String()})
+			}
+		}
+	}
 	func() {
 		defer func() {
 			if r := recover(); r != nil {
@@ -157,12 +207,20 @@ func runC04(tp *sim.Tape, opt sim.RunOpt) *sim.Outcome {
 				}
 			}
 		}()
-		for _, fo := range p.strct.Fields() {
-			f := fo.AsField()
-			in.this[f.Name()] = in.zero(f.XType())
+		if opt.Mode != "coro" {
+			for _, fo := range p.strct.Fields() {
+				f := fo.AsField()
+				in.this[f.Name()] = in.zero(f.XType())
+			}
+		}
+		if giveUp != "" {
+			return
 		}
 		callable := p0.pubs
 		ncalls := 1 + tp.Draw(6)
+		if opt.Mode == "coro" {
+			ncalls = 0
+		}
 		for i := 0; i < ncalls; i++ {
 			fn := p.funcs[callable[tp.Draw(len(callable))].FuncName()]
 			argv := map[t.ID]*val{}
@@ -187,7 +245,7 @@ func runC04(tp *sim.Tape, opt sim.RunOpt) *sim.Outcome {
 				unsup("result type %s", fn.Out().Str(p.tm))
 			}
 			ret := in.call(fn, argv, false)
-			recs = append(recs, callRec{fn, cargs, renderRet(fn.FuncName().Str(p.tm), ret)})
+			recs = append(recs, callRec{fn: fn, args: cargs, line: renderRet(fn.FuncName().Str(p.tm), ret)})
 		}
 		// dump the receiver through the getters
 		for _, g := range getters {
@@ -203,13 +261,13 @@ func runC04(tp *sim.Tape, opt sim.RunOpt) *sim.Outcome {
 			}
 			if n == 0 {
 				ret := in.call(fn, map[t.ID]*val{}, false)
-				recs = append(recs, callRec{fn, nil, renderRet(gname, ret)})
+				recs = append(recs, callRec{fn: fn, line: renderRet(gname, ret)})
 				continue
 			}
 			for k := 0; k < n; k++ {
 				argName := fn.In().Fields()[0].AsField().Name()
 				ret := in.call(fn, map[t.ID]*val{argName: bigVal(big.NewInt(int64(k)))}, false)
-				recs = append(recs, callRec{fn, []string{fmt.Sprintf("(uint32_t)%dULL", k)}, renderRet(fmt.Sprintf("%s[%d]", gname, k), ret)})
+				recs = append(recs, callRec{fn: fn, args: []string{fmt.Sprintf("(uint32_t)%dULL", k)}, line: renderRet(fmt.Sprintf("%s[%d]", gname, k), ret)})
 			}
 		}
 	}()
@@ -251,10 +309,29 @@ func runC04(tp *sim.Tape, opt sim.RunOpt) *sim.Outcome {
 	}
 	var mc strings.Builder
 	mc.WriteString("#define WUFFS_IMPLEMENTATION\n#define WUFFS_CONFIG__MODULES\n#define WUFFS_CONFIG__MODULE__BASE__CORE\n#define WUFFS_CONFIG__MODULE__ZFOO\n")
-	mc.WriteString("#include \"./wuffs-std-zfoo.c\"\n#include <stdio.h>\n#include <stdlib.h>\n")
+	mc.WriteString("#include \"./wuffs-std-zfoo.c\"\n#include <stdio.h>\n#include <stdlib.h>\n#include <string.h>\n")
+	if opt.Mode == "coro" {
+		// the caller-owned I/O buffers and the source stream
+		mc.WriteString("static uint8_t srcdata[64];\n")
+		fmt.Fprintf(&mc, "static uint8_t dstdata[%d];\n", dstCap)
+		mc.WriteString("static const uint8_t stream[64] = {")
+		for _, c := range stream {
+			fmt.Fprintf(&mc, "%d,", c)
+		}
+		mc.WriteString("0};\n")
+	}
 	mc.WriteString("int main(void) {\n  wuffs_zfoo__foo* f = (wuffs_zfoo__foo*)malloc(sizeof__wuffs_zfoo__foo());\n  if (!f) return 3;\n")
 	mc.WriteString("  if (wuffs_zfoo__foo__initialize(f, sizeof__wuffs_zfoo__foo(), WUFFS_VERSION, 0).repr) return 4;\n")
+	if opt.Mode == "coro" {
+		mc.WriteString("  wuffs_base__io_buffer src = wuffs_base__ptr_u8__writer(srcdata, 64);\n")
+		fmt.Fprintf(&mc, "  wuffs_base__io_buffer dst = wuffs_base__ptr_u8__writer(dstdata, %d);\n", dstCap)
+		mc.WriteString("  wuffs_base__status st = wuffs_base__make_status(NULL);\n  (void)st; (void)stream;\n")
+	}
 	for _, r := range recs {
+		if r.c != "" {
+			mc.WriteString(r.c)
+			continue
+		}
 		cname := "wuffs_zfoo__foo__" + r.fn.FuncName().Str(p.tm)
 		call := fmt.Sprintf("%s(%s)", cname, strings.Join(append([]string{"f"}, r.args...), ", "))
 		label := r.line[:strings.LastIndexByte(r.line, ' ')]
@@ -312,9 +389,12 @@ func runC04(tp *sim.Tape, opt sim.RunOpt) *sim.Outcome {
 	o.ProbeN("calls_compared", int64(len(recs)))
 	var calls []string
 	for i, r := range recs {
-		if r.fn.Public() && !strings.HasPrefix(r.fn.FuncName().Str(p.tm), "vget_") {
+		if r.fn != nil && r.c == "" && r.fn.Public() && !strings.HasPrefix(r.fn.FuncName().Str(p.tm), "vget_") {
 			calls = append(calls, fmt.Sprintf("%s(%s) -> %s", r.fn.FuncName().Str(p.tm), strings.Join(r.args, ", "), strings.TrimPrefix(want[i], r.fn.FuncName().Str(p.tm)+" ")))
 		}
+	}
+	if opt.Mode == "coro" {
+		calls = coroCalls
 	}
 	o.Sample = map[string]interface{}{"program": name, "source": src, "calls": calls, "c_build": variant}
 	if opt.Verbose {
